@@ -10,6 +10,7 @@ import (
 	"fmt"
 	"math/rand"
 	"os"
+	"path/filepath"
 	"strconv"
 	"strings"
 	"time"
@@ -112,6 +113,13 @@ func (h *harness) install(n *sim.Node, s state) {
 	}
 	n.FSM.Ops = nil
 	n.FSM.Applies = nil
+	// the node is reused for many cases: snapshots stored by earlier cases are not part of this case's state
+	sdir := filepath.Join(n.Dir, "snapshots")
+	if ents, err := os.ReadDir(sdir); err == nil {
+		for _, e := range ents {
+			os.RemoveAll(filepath.Join(sdir, e.Name()))
+		}
+	}
 }
 
 // deliver runs one request on the node (own goroutine: it may park) and returns "resp ## post".
